@@ -388,3 +388,45 @@ _add(Cond('pivot_stack_hierarchical_columns_dtypes', [('k0', 'int'), ('k1', 'int
         functions=['Frame.pivot_stack', 'pivot_index_map'],
         bounds='2-row frame with two columns under depth-2 labels sharing one remaining label; the dtype of each column symbolic over (<U1, <U6, int64, float64, bool) (same kind / different width in both orders, different kinds); the moved level symbolic',
         route='pivot_stack(level) on hierarchical columns: every source cell arrives unchanged at (row + moved label, remaining label) whatever the dtypes that meet in the stacked column; pivot_unstack brings every cell back', timeout=300))
+
+
+# ---------------------------------------------------------------- pivot with several data fields, requested in any order
+
+import itertools
+FIELD_SELECTIONS = [p for k in (2, 3) for p in itertools.permutations(('v', 'w', 'x'), k)]
+
+
+def body_pivot_fields(env, i1, i2, c1, c2, sel, front):
+    from vf import rt
+    ik = [0] + [concretize(x, 0, 1) for x in (i1, i2)]
+    ck = [0] + [concretize(x, 0, 1) for x in (c1, c2)]
+    sel, front = concretize(sel, 0, len(FIELD_SELECTIONS) - 1), bool(front)
+
+    def run():
+        sf = env.sf
+        data = {'v': [1, 2, 4], 'w': [8, 16, 32], 'x': [64, 128, 256]}    # every sum identifies its field and its source rows
+        fields = FIELD_SELECTIONS[sel]
+        fill = -1
+        keys = [('i', env.array(ik, 'int64')), ('c', env.array(ck, 'int64'))]
+        vals = [(k, env.array(data[k], 'int64')) for k in ('v', 'w', 'x')]
+        f = sf.Frame.from_items(vals + keys if front else keys + vals)
+        p = f.pivot('i', 'c', list(fields), fill_value=fill)
+        idx = p.index.values.tolist()
+        cols = p.columns.values.tolist()
+        cells = p.values.tolist()
+        got = sorted([[env.obs(idx[a]), env.obs(list(cols[b])), env.obs(cells[a][b])] for a in range(len(idx)) for b in range(len(cols))])
+        exp = []
+        for a in sorted(set(ik)):
+            for b in sorted(set(ck)):
+                for d in fields:
+                    src = [data[d][r] for r in range(3) if ik[r] == a and ck[r] == b]
+                    exp.append([a, [b, d], sum(src) if src else fill])
+        return [got, len(idx), len(cols)], [sorted(exp), len(set(ik)), len(set(ck)) * len(fields)]
+    return rt.untraced(run)
+
+
+_add(Cond('pivot_several_data_fields_any_order', [('i1', 'int'), ('i2', 'int'), ('c1', 'int'), ('c2', 'int'), ('sel', 'int'), ('front', 'bool')], body_pivot_fields,
+        ranges={'i1': (0, 1), 'i2': (0, 1), 'c1': (0, 1), 'c2': (0, 1), 'sel': (0, len(FIELD_SELECTIONS) - 1)},
+        functions=['Frame.pivot', 'pivot_records_items', 'extrapolate_column_fields'],
+        bounds='3-row frame with three data columns; index-field and column-field values of rows 1-2 symbolic in 0..1 (groups with and without repeated keys); data_fields = any ordered selection of 2 or 3 of the data columns (12 selections, symbolic); data columns stored before or after the key columns; default aggregation, fill -1',
+        route='Frame.pivot(i, c, data_fields): one column per (column value, data field), each cell the sum over exactly the matching source rows OF THAT FIELD, whatever order the fields are requested in', timeout=400))
